@@ -504,6 +504,9 @@ func replay(c *hl.Ctx, raw json.RawMessage) {
 			return
 		}
 		checkStream(c, fmt.Sprintf("ref/pa=%d/stream", cs.PA), cs, [][]byte{f1, f2}, [][]byte{r1, r2})
+	case "retention":
+		c.NShards = 1
+		retention(c)
 	default:
 		checkASC(c)
 	}
